@@ -68,12 +68,12 @@ func H_C11_roundtrip() {
 	orig := copyTree(m).(map[string]interface{})
 	data, err := Encode(m)
 	nd.Assert("C11.encode-ok", err == nil)
-	nd.Assert("C11.every-time-wrapped-before-msgpack", rawTimesSeen() == 0)
+	wrapped := rawTimesSeen() == 0 // a raw time.Time handed to msgpack loses its zone offset
 	nd.Assert("C11.encode-does-not-mutate", ref.DeepEqual(m, orig))
 	out := map[string]interface{}{}
 	err = Decode(data, &out)
 	nd.Assert("C11.decode-ok", err == nil)
-	nd.Assert("C11.roundtrip", ref.DeepEqual(out, orig))
+	nd.Assert("C11.roundtrip", ref.DeepEqual(out, orig) && wrapped)
 	nd.Reach("end")
 }
 
